@@ -32,7 +32,7 @@ func (c11) Cases(tier string) int {
 }
 
 func (c11) Rule() string {
-	return "one plan (planned once through GetPlans, also taken from an AutomaticQueryPlanCache) executed 8 (quick) / 32 (thorough) times concurrently and 3 times sequentially, each execution with its own variable values (argument ids, @include flags) and its own context value; built with -race; checked: a deep structural print of the plan (step queries, selection sets, fragment definitions, variables, insertion points, scrub table) is identical before and after; every outbound call carries only the variables of the request whose context it carries, with that request's values; every response equals a freshly planned solitary execution of the same request and the Lean monolith; non-trivial = the plan has at least one dependent step and a variable used in it; distinct = distinct (query, variable assignment)"
+	return "one plan (planned once through GetPlans, also taken from an AutomaticQueryPlanCache) executed 8 (quick) / 32 (thorough) times concurrently and 3 times sequentially, each execution with its own variable values (argument ids, @include flags; for operations whose variables have defaults some requests send no variables at all or only some) and its own context value; built with -race; checked: a deep structural print of the plan (step queries, selection sets, fragment definitions, variables, insertion points, scrub table) is identical before and after; every outbound call carries only the variables of the request whose context it carries, with that request's values; every response equals a freshly planned solitary execution of the same request and the Lean monolith; non-trivial = the plan has at least one dependent step and a variable used in it; distinct = distinct (query, variable assignment)"
 }
 
 var c11Queries = []string{
@@ -40,6 +40,9 @@ var c11Queries = []string{
 	`query Q($a: ID!, $s: Boolean!) { user(id: $a) { firstName photos { url likes @skip(if: $s) } } allUsers { lastName @include(if: $s) } }`,
 	`query Q($a: ID!, $s: Boolean!) { user(id: $a) { ...F } } fragment F on User { firstName favorite @include(if: $s) { url likes likedBy { nick } } }`,
 	`query Q($a: ID!, $s: Boolean!) { node(id: $a) { ... on User { firstName lastName nick @skip(if: $s) } } }`,
+	// variables a request may leave out (defaults): some requests send no variables object at all, some only one
+	`query Q($a: ID = "u2", $s: Boolean = true) { user(id: $a) { firstName lastName @include(if: $s) friends { nick } } }`,
+	`query Q($a: ID = "u3", $s: Boolean = false) { user(id: $a) { firstName photos { url likes @skip(if: $s) } } allUsers { lastName @include(if: $s) } }`,
 }
 
 // planPrint renders everything observable of a plan.
@@ -117,8 +120,19 @@ func (c11) Run(c *Ctx, i int) CaseResult {
 		calls int // outbound calls of the solitary execution
 	}
 	reqs := make([]reqT, n+3)
+	optional := strings.Contains(q, "$a: ID =")
 	for k := range reqs {
 		reqs[k].vars = map[string]interface{}{"a": ids[r.Intn(len(ids))], "s": r.Intn(2) == 0}
+		if optional {
+			switch r.Intn(4) {
+			case 0:
+				reqs[k].vars = nil
+			case 1:
+				delete(reqs[k].vars, "a")
+			case 2:
+				delete(reqs[k].vars, "s")
+			}
+		}
 	}
 	res.Key = fmt.Sprint(q, reqs)
 	// solitary, freshly planned executions (and the Lean oracle)
@@ -231,7 +245,7 @@ func (c11) Run(c *Ctx, i int) CaseResult {
 	deps := strings.Count(before, "\n1|")
 	res.Nontrivial = deps > 0
 	res.Counters = map[string]int{"executions": len(reqs), "outbound_calls": ncalls}
-	res.Features = []string{fmt.Sprintf("cached-plan:%v", cachedPlan)}
+	res.Features = []string{fmt.Sprintf("cached-plan:%v", cachedPlan), fmt.Sprintf("optional-variables:%v", optional)}
 	if i%11 == 0 {
 		res.Sample = map[string]interface{}{"query": q, "variables": reqs[0].vars, "executions": len(reqs), "outbound_calls": ncalls}
 	}
